@@ -79,6 +79,54 @@ func genFragSpec(r *hx.Rng, maxN int) fragSpec {
 	return fs
 }
 
+// addGap shifts the decode times of everything from some fragment boundary on: a timeline discontinuity
+// between two input fragments (tfdt of the later fragment is larger than the end of the earlier one).
+func addGap(r *hx.Rng, fs *fragSpec) bool {
+	var bounds []int
+	k := 0
+	for _, fl := range fs.segLens {
+		for _, c := range fl {
+			k += c
+			if k < len(fs.samples) {
+				bounds = append(bounds, k)
+			}
+		}
+	}
+	if len(bounds) == 0 {
+		return false
+	}
+	at := bounds[r.Intn(len(bounds))]
+	delta := uint64(r.Pick(1, 40, 1000, 90000))
+	for i := at; i < len(fs.samples); i++ {
+		fs.samples[i].dts += delta
+	}
+	return true
+}
+
+func contiguousFlat(ss []flat) bool {
+	for i := 1; i < len(ss); i++ {
+		if ss[i].dts != ss[i-1].dts+uint64(ss[i-1].dur) {
+			return false
+		}
+	}
+	return true
+}
+
+// equalButDts: same samples in the same order, decode times ignored.
+func equalButDts(a, b []flat) bool {
+	if len(a) != len(b) {
+		return false
+	}
+	for i := range a {
+		x, y := a[i], b[i]
+		x.dts, y.dts = 0, 0
+		if !x.eq(y) {
+			return false
+		}
+	}
+	return true
+}
+
 // genSegLens partitions n samples into segments of 1-3 fragments.
 func genSegLens(r *hx.Rng, n int) [][]int {
 	var out [][]int
@@ -112,8 +160,8 @@ func fragWitness(fs fragSpec) string {
 	for i, s := range fs.samples {
 		ss[i] = fmt.Sprintf("%d:%d:%d:%x:%d", s.dts, s.dur, s.cto, s.flags, len(s.data))
 	}
-	return fmt.Sprintf("v=%d,ts=%d,styp=%d,opt=%d,tid=%d,segs=%s,samples=%s", b2i(fs.video), fs.timescale, b2i(fs.styp),
-		b2i(fs.optimize), fs.trackID, strings.Join(sl, "/"), strings.Join(ss, "/"))
+	return fmt.Sprintf("v=%d,ts=%d,styp=%d,opt=%d,noinit=%d,tid=%d,segs=%s,samples=%s", b2i(fs.video), fs.timescale, b2i(fs.styp),
+		b2i(fs.optimize), b2i(fs.noInit), fs.trackID, strings.Join(sl, "/"), strings.Join(ss, "/"))
 }
 
 func parseFragWitness(w string) (fragSpec, error) {
@@ -134,6 +182,8 @@ func parseFragWitness(w string) (fragSpec, error) {
 			fs.styp = v == "1"
 		case "opt":
 			fs.optimize = v == "1"
+		case "noinit":
+			fs.noInit = v == "1"
 		case "tid":
 			x, _ := strconv.ParseUint(v, 10, 32)
 			fs.trackID = uint32(x)
@@ -233,7 +283,7 @@ type resegResult struct {
 }
 
 func runReseg(fs fragSpec, d uint64, t tools) resegResult {
-	data, err := encodeFragmented(fs, true)
+	data, err := encodeFragmented(fs, !fs.noInit)
 	if err != nil {
 		return resegResult{class: "synth-error", msg: err.Error()}
 	}
@@ -355,6 +405,9 @@ func checkReseg(fs fragSpec, d uint64, t tools, evals *int) string {
 		class := "samples-differ"
 		if len(got) < len(res.input) && diffFlat(got, res.input[:len(got)]) == "" {
 			class = "samples-dropped-at-end"
+		}
+		if !contiguousFlat(res.input) && equalButDts(got, res.input) {
+			class = "decode-time-gap-closed" // recorded finding: input timeline discontinuity inside one output segment
 		}
 		fail("resegmenter", class, w, dd)
 		return class
@@ -481,8 +534,12 @@ func checkFragmentify(fs fragSpec, duration uint32, evals *int) string {
 		return res.class
 	}
 	if dd := diffFlat(flatten(res.out), flatten(res.in)); dd != "" {
-		fail("Fragmentify", "samples-differ", w, dd)
-		return "samples-differ"
+		class := "samples-differ"
+		if !contiguousFlat(flatten(res.in)) && equalButDts(flatten(res.out), flatten(res.in)) {
+			class = "decode-time-gap-closed"
+		}
+		fail("Fragmentify", class, w, dd)
+		return class
 	}
 	for k, o := range res.out {
 		if len(o) == 0 {
